@@ -28,6 +28,21 @@ def evaluator_roles(prog, ctx):
     # the evaluator is the returning path whose value goes through Locate(); any other returning path is a shortcut that
     # has to be justified (see check(): Interpolate:every-path)
     main = [o for o in outs if isinstance(o.value, sp.Basic) and any(a.func.__name__ == Q + 'Locate' for a in applied(o.value))]
+    if len(main) > 1:
+        # several paths use the located segment: the evaluator is the one of highest degree in x (the others are range
+        # shortcuts, judged by Interpolate:every-path)
+        xs_ = sx.symbol(f.params[0]['name'], 'double')
+
+        def deg(o):
+            try:
+                v_ = o.value.replace(lambda e_: isinstance(e_, sp.Pow) and e_.exp.is_Float and e_.exp == int(e_.exp), lambda e_: sp.Pow(e_.base, int(e_.exp)))
+                v_ = v_.xreplace({a_: Symbol('j', integer=True) for a_ in applied(v_) if a_.func.__name__ == Q + 'Locate'})
+                return sp.Poly(sp.expand(v_), xs_).degree()
+            except Exception:
+                return -1
+        ds = sorted(((deg(o), n_) for n_, o in enumerate(main)), reverse=True)
+        if ds[0][0] > ds[1][0]:
+            main = [main[ds[0][1]]]
     if len(main) != 1:
         raise Undecided('Interpolate has %d return paths through Locate()' % len(main))
     EXTRA_PATHS[:] = [o for o in outs if o is not main[0]]
@@ -237,21 +252,43 @@ def check(prog, ctx):
 
     for cname, kval in cases.items():
         term = None
+        pieces = []
         for kvs, guard, tv in reversed(sl.defs):
             g = guard.subs({kvs[0]: kval, Nsym: Nval}) if guard is not S.true else S.true
             if g == S.true:
                 term = tv.subs(kvs[0], k)
                 break
+            if g != S.false and isinstance(g, sp.Basic):
+                # the definition applies at this position under a condition on the data: back to the symbolic index
+                gk = g.replace(lambda e_: isinstance(e_, sp.core.function.AppliedUndef) and len(e_.args) == 1 and e_.args[0].is_Integer,
+                               lambda e_: e_.func(k + (e_.args[0] - kval)))
+                pieces.append((tv.subs(kvs[0], k), gk))
         if term is None:
             raise Undecided('no slope definition covers the %s position' % cname)
+        if pieces:
+            term = sp.Piecewise(*(pieces + [(term, True)]))
         if cname == 'interior':
             adj = {'left': Sf(k - 1), 'right': Sf(k)}
         elif cname == 'first':
             adj = {'edge': Sf(k)}
         else:
             adj = {'edge': Sf(k - 1)}
-        res = analyse_limiter(term, adj, cname)
         inst = 'slope:' + cname
+        if term.has(sp.Piecewise):
+            # the slope is chosen by a test on the data (a shortcut next to the limiter): every alternative must respect the
+            # limiter's guarantees; decided on a table of secant slopes and spacings that contains zeros, both signs, equal,
+            # tiny (1e-20) and huge (1e6) magnitudes
+            pw = piecewise_slope(term, adj, cname, Sf, Hf, k, env2, kval, Nsym, Nval)
+            if pw.get('undecided'):
+                ctx.undecided('C01.b', inst, writer, pw['undecided'])
+            else:
+                ctx.decide('C01.b', inst, writer, not pw['bad'], 'every alternative of the slope keeps it inside the monotonicity box of the adjacent secants '
+                           '(zero at a sign change, same sign and at most 3 min|s| otherwise) on %d sample configurations' % pw['n'],
+                           'an alternative of the slope leaves the limiter\'s box: with secants %s and spacings %s the slope is %s' %
+                           ((pw['bad'][0]['s'], pw['bad'][0]['h'], pw['bad'][0]['slope']) if pw['bad'] else ('', '', '')),
+                           witness={'cases': pw['bad'][:3]} if pw['bad'] else None, form=str(term)[:300])
+            continue
+        res = analyse_limiter(term, adj, cname)
         if res.get('undecided'):
             ctx.undecided('C01.b', inst, writer, res['undecided'])
             continue
@@ -286,6 +323,48 @@ def check(prog, ctx):
     C09.search_rules(prog, ctx, loc, closure, 'C01.h', 'C01.h')
     ctx.sub('check_bilinear', check_bilinear, prog, ctx)
     ctx.sub('check_ctor', check_ctor, prog, ctx, roles, Yf, writer)
+
+
+def piecewise_slope(term, adj, cname, Sf, Hf, k, env2, kval, Nsym, Nval):
+    import itertools
+    AU = sp.core.function.AppliedUndef
+    t = term
+    for _ in range(3):
+        for key, v in env2.items():
+            if isinstance(v, Arr) and not v.opaque:
+                fnm = Function(v.name, real=True)
+                if t.has(fnm):
+                    t = t.replace(fnm, lambda m, v=v: resolve_case(v, m, kval, Nsym, Nval, k))
+    vals = [0.0, 1e-20, -1e-20, 1.0, -1.0, 2.5, -0.4, 1e6, -1e6]
+    hs = [(1.0, 1.0), (1.0, 3.0), (0.01, 5.0)]
+    eps = {x_: sp.Float(2.220446049250313e-16) for x_ in t.atoms(AU) | t.free_symbols if 'epsilon' in str(x_)}
+    tiny = {x_: sp.Float(2.2250738585072014e-308) for x_ in t.atoms(AU) | t.free_symbols if 'numeric_limits<double>::min' in str(x_)}
+    bad, n = [], 0
+    for (sl, sr), (hl, hr) in itertools.product(itertools.product(vals, vals), hs):
+        sub = dict(eps)
+        sub.update(tiny)
+        sub.update({Sf(k - 1): sp.Float(sl), Sf(k): sp.Float(sr), Hf(k - 1): sp.Float(hl), Hf(k): sp.Float(hr),
+                    Sf(k + 1): sp.Float(sr), Hf(k + 1): sp.Float(hr)})
+        if cname == 'first':
+            sub.update({Sf(k): sp.Float(sl), Sf(k + 1): sp.Float(sr), Hf(k): sp.Float(hl), Hf(k + 1): sp.Float(hr)})
+        if cname == 'last':
+            sub.update({Sf(k - 2): sp.Float(sl), Sf(k - 1): sp.Float(sr), Hf(k - 2): sp.Float(hl), Hf(k - 1): sp.Float(hr)})
+        try:
+            v = sp.N(t.xreplace(sub))
+            v = float(v)
+        except (TypeError, ValueError):
+            return {'undecided': 'slope alternative does not evaluate on the sample table: %s' % str(t.xreplace(sub))[:160]}
+        n += 1
+        if cname == 'interior':
+            a_, b_ = sl, sr
+            lim = 3 * min(abs(a_), abs(b_))
+            ok = (v == 0.0) if a_ * b_ <= 0 else (v * a_ >= 0 and abs(v) <= lim * (1 + 1e-12))
+        else:
+            e_ = sl if cname == 'first' else sr
+            ok = v * e_ >= 0 and abs(v) <= 3 * abs(e_) * (1 + 1e-12)
+        if not ok:
+            bad.append({'s': [sl, sr], 'h': [hl, hr], 'slope': v})
+    return {'bad': bad, 'n': n}
 
 
 def resolve_case(arr, m, kval, Nsym, Nval, k):
